@@ -1,7 +1,16 @@
 """C19 — the CLI prints what the library computes; default-format specs never execute (partial proof).
 
-Generators, implementation runner (glom.cli.main in-process, captured stdio, temp files), the
-oracle tables of the trusted externals, the hostile-spec corpus."""
+Generators, implementation runner (glom.cli.main in-process on the RAW argument list, captured stdio,
+temp files; `python -m glom` as a process for a few cases), the oracle tables of the trusted
+externals, the hostile-spec corpus.
+
+Case shapes (all JSON-able, see lean/Glom/Driver/C19.lean):
+  * flags as a dict (`argv`) — rendered to a command line by build_cmdline, which the model's parser
+    must read back as the same flags; or a raw argument list (`raw`) with or without the dict;
+  * channel mode (`req` + `vias`): ONE request — spec text, target text, flags — delivered through
+    several pairs of channels in one case; the observation is the list of outcomes (`impl_vias`) and
+    the property includes that they are all the same;
+  * `stdin_open: false` (a closed standard input), `proc: true` (run as a child process)."""
 import ast
 import contextlib
 import io
@@ -1564,7 +1573,17 @@ def nontrivial(case, verdict):
 def shrink(case):
     base = {k: v for k, v in case.items() if k not in ('impl', 'ext', 'impl_vias')}
     if case.get('vias'):
-        # fewer deliveries (two are needed to disagree), then simpler flags
+        # a pair of deliveries that disagree says it best; else fewer deliveries, then simpler flags
+        iv = case.get('impl_vias') or []
+        if len(case['vias']) > 2 and len(iv) == len(case['vias']):
+            outs = [json.dumps(x.get('outcome'), sort_keys=True) for x in iv]
+            for i in range(len(outs)):
+                j = next((j for j in range(len(outs)) if outs[j] != outs[i]), None)
+                if j is not None:
+                    c = json.loads(json.dumps(base))
+                    c['vias'] = [case['vias'][min(i, j)], case['vias'][max(i, j)]]
+                    yield c
+                    break
         if len(case['vias']) > 2:
             for i in range(len(case['vias'])):
                 c = json.loads(json.dumps(base))
